@@ -79,6 +79,7 @@ Definition demand_of (o : operand) : list (regop * N) :=
       | Some acc => [(rop cls letters true, dest_w cls acc)]
       | None => []
       end
+  | OAlias name new => [(alias_op name new, alias_w name)]
   | _ => []
   end.
 Definition demands (prog : cstmts) : list (regop * N) := flat_map demand_of (ops_ss prog).
@@ -136,6 +137,7 @@ Definition cast_ty_of (ts : tyspec) : option (bool * N) :=
   | [TS_int] => Some (true, 32%N)
   | [TS_unsigned] => Some (false, 32%N)
   | [TS_unsigned; TS_int] => Some (false, 32%N)
+  | [TS_sizeN b sg] => if okw_b (b * 8) then Some (sg, (b * 8)%N) else None
   | _ => None
   end.
 Lemma cast_ty_of_iff ts sg w : cast_ty_of ts = Some (sg, w) <-> cast_ty ts sg w.
@@ -147,12 +149,15 @@ Proof.
       * injection H as <- <-. auto 10.
       * injection H as <- <-. auto 10.
       * destruct (okw_b w0) eqn:Ew; [|discriminate H]. injection H as <- <-. apply okw_b_iff in Ew. auto 10.
+      * destruct (okw_b (bytes * 8)) eqn:Ew; [|discriminate H]. injection H as <- <-. apply okw_b_iff in Ew.
+        right. right. right. right. exists bytes. auto.
     + destruct t1; cbn [cast_ty_of] in H; try discriminate H.
       destruct t2; try discriminate H. injection H as <- <-. auto 10.
     + destruct t1; cbn [cast_ty_of] in H; try discriminate H.
       destruct t2; discriminate H.
-  - intros [[-> Hw] | [[-> [-> ->]] | [[-> [-> ->]] | [-> [-> ->]]]]]; cbn [cast_ty_of]; try reflexivity.
-    apply okw_b_iff in Hw. rewrite Hw. reflexivity.
+  - intros [[-> Hw] | [[-> [-> ->]] | [[-> [-> ->]] | [[-> [-> ->]] | [b [-> [-> Hw]]]]]]]; cbn [cast_ty_of]; try reflexivity.
+    + apply okw_b_iff in Hw. rewrite Hw. reflexivity.
+    + apply okw_b_iff in Hw. rewrite Hw. reflexivity.
 Qed.
 
 Definition decl_ty_of (ts : tyspec) : option (bool * N) :=
@@ -246,9 +251,40 @@ Proof.
     intuition discriminate.
 Qed.
 
-Definition casg_ok (a : asgop) : bool := match a with AAdd | ASub | AMul => true | _ => false end.
-Lemma casg_ok_iff a : casg_ok a = true <-> (a = AAdd \/ a = ASub \/ a = AMul).
+Definition casg_ok (a : asgop) : bool := match a with AAdd | ASub | AMul | AAnd | AOr | AXor => true | _ => false end.
+Lemma casg_ok_iff a : casg_ok a = true <-> ((a = AAdd \/ a = ASub \/ a = AMul) \/ (a = AAnd \/ a = AOr \/ a = AXor)).
 Proof. destruct a; cbn [casg_ok]; intuition discriminate. Qed.
+
+Definition alias_b (rw : regwidth) (name : string) (new : bool) : bool :=
+  (existsb (String.eqb name) alias_names && N.eqb (rw (alias_op name new)) (alias_w name))%bool.
+Lemma alias_b_iff rw name new : alias_b rw name new = true <-> In name alias_names /\ rw (alias_op name new) = alias_w name.
+Proof.
+  unfold alias_b. rewrite andb_true_iff, N.eqb_eq, existsb_exists. split.
+  - intros [[y [Hy He]] Hw]. apply String.eqb_eq in He. subst y. auto.
+  - intros [Hin Hw]. split; [|exact Hw]. exists name. split; [exact Hin | apply String.eqb_refl].
+Qed.
+
+Definition implicit_b (x : string) : bool := existsb (String.eqb x) ["EA"; "i"; "j"; "k"].
+Lemma implicit_b_iff x : implicit_b x = true <-> implicit_name x.
+Proof. unfold implicit_b, implicit_name. cbn [existsb]. rewrite !orb_true_iff, !String.eqb_eq. intuition discriminate. Qed.
+
+Definition raw_name_b (IM : string -> bool) (V : list (string * option vtype)) (x : string) : bool :=
+  (match lookup x V with None => true | Some _ => false end && negb (IM x) && negb (implicit_b x))%bool.
+Lemma raw_name_b_iff IM V x : raw_name_b IM V x = true <-> raw_name IM V x.
+Proof.
+  unfold raw_name_b, raw_name. rewrite !andb_true_iff, !negb_true_iff. rewrite <- implicit_b_iff.
+  destruct (lookup x V); destruct (implicit_b x); intuition congruence.
+Qed.
+
+Definition mac1_b (m : string) : bool := existsb (String.eqb m) ["bswap16"; "bswap32"; "bswap64"].
+Definition mac3_b (m : string) : bool := existsb (String.eqb m) ["extract32"; "extract64"; "sextract64"].
+Definition mac4_b (m : string) : bool := existsb (String.eqb m) ["deposit32"; "deposit64"].
+Lemma mac1_b_iff m : mac1_b m = true <-> is_mac1 m.
+Proof. unfold mac1_b, is_mac1. cbn [existsb]. rewrite !orb_true_iff, !String.eqb_eq. intuition discriminate. Qed.
+Lemma mac3_b_iff m : mac3_b m = true <-> is_mac3 m.
+Proof. unfold mac3_b, is_mac3. cbn [existsb]. rewrite !orb_true_iff, !String.eqb_eq. intuition discriminate. Qed.
+Lemma mac4_b_iff m : mac4_b m = true <-> is_mac4 m.
+Proof. unfold mac4_b, is_mac4. cbn [existsb]. rewrite !orb_true_iff, !String.eqb_eq. intuition discriminate. Qed.
 
 (* a register operand whose handle has the width the operand demands *)
 Definition regw_b (rw : regwidth) (cls letters : string) : bool :=
@@ -291,120 +327,233 @@ Section Check.
     | EOp (OReg cls letters) => (dest_cls_b cls && regw_b rw cls letters)%bool
     | EOp (ONewReg cls letters) => (reg_cls_b true cls && newregw_b rw cls letters)%bool
     | EOp (OImm l) => IM l
-    | ECast ts a => (match cast_ty_of ts with Some _ => true | None => false end && pfrag_check V a)%bool
+    | EOp (OAlias name new) => (alias_b rw name new || (String.eqb name "PC" && negb new))%bool
+    | ECast ts a =>
+        (match cast_ty_of ts with Some _ => true | None => false end &&
+         (pfrag_check V a ||
+          match a with ELoad _ lw (ECons x ENil) => okw_b lw && pfrag_check V x | _ => false end))%bool
     | EUn u a => (unop_ok u && pfrag_check V a)%bool
     | EBin b l r => (binop_ok b && pfrag_check V l && pfrag_check V r)%bool
     | ECond c t f => (pfrag_check V c && pfrag_check V t && pfrag_check V f && negb (litlike c))%bool
+    | Ast.ECall f (ECons a ENil) => (String.eqb f "sizeof" && pfrag_check V a)%bool
+    | EMacro m (ECons x ENil) => (mac1_b m && pfrag_check V x)%bool
+    | EMacro m (ECons x (ECons s (ECons l ENil))) => (mac3_b m && pfrag_check V x && pfrag_check V s && pfrag_check V l)%bool
+    | EMacro m (ECons x (ECons s (ECons l (ECons f ENil)))) =>
+        (mac4_b m && pfrag_check V x && pfrag_check V s && pfrag_check V l && pfrag_check V f)%bool
     | _ => false
     end.
 
-  Fixpoint sfrag_check (V : list (string * option vtype)) (s : cstmt) {struct s} : option (list (string * option vtype)) :=
+  Definition carg_b (D V : list (string * option vtype)) (e : cexpr) : bool :=
+    (pfrag_check V e || match e with EOp (OIdent x) => raw_name_b IM D x | _ => false end)%bool.
+
+  Definition fresh_b (D : list (string * option vtype)) (x : string) : bool :=
+    match lookup x D with None => true | Some _ => false end.
+
+  (* D = the declared locals, V = those that have a value *)
+  Fixpoint sfrag_check (D V : list (string * option vtype)) (s : cstmt) {struct s}
+    : option (list (string * option vtype) * list (string * option vtype)) :=
     match s with
+    | SExpr (Ast.ECall f (ECons a (ECons b ENil))) =>
+        if (String.eqb f ssc_name && carg_b D V a && carg_b D V b)%bool then Some (D, V) else None
     | SExpr (EAssign a (EOp (OReg cls letters)) e) =>
         if ((match a with AAssign => true | _ => casg_ok a end) && dest_cls_b cls && regw_b rw cls letters && pfrag_check V e)%bool
-        then Some V else None
+        then Some (D, V) else None
+    | SExpr (EAssign a (EOp (OAlias name new)) e) =>
+        if ((match a with AAssign => true | _ => false end) && alias_b rw name new && pfrag_check V e)%bool then Some (D, V) else None
+    | SExpr (EAssign a (EOp (OImm l)) e) =>
+        if ((match a with AAssign => true | _ => false end) && IM l && pfrag_check V e)%bool then Some (D, V) else None
     | SExpr (EAssign a (EOp (OIdent x)) e) =>
         if ((match a with AAssign => true | _ => casg_ok a end) && intvar_b V x && pfrag_check V e)%bool
-        then Some V else None
+        then Some (D, V)
+        else if ((match a with AAssign => true | _ => false end) && fresh_b V x && pfrag_check V e)%bool then
+          match lookup x D with
+          | Some (Some t) =>                           (* the first assignment of a local declared without initialiser *)
+              if (vtype_seqb t (ty_int (vt_sg t) (vt_w t)) && okw_b (vt_w t))%bool
+              then Some (D, V ++ [(x, Some (ty_int (vt_sg t) (vt_w t)))]) else None
+          | Some None => None
+          | None =>                                    (* the first assignment of EA / i / j / k *)
+              if (implicit_b x && negb (reserved_b IM x))%bool
+              then Some (D ++ [(x, Some (ty_int false 32))], V ++ [(x, Some (ty_int false 32))]) else None
+          end
+        else None
     | SDecl ts x (Some e) =>
         match decl_ty_of ts with
         | Some (sg, w) =>
-            if (match lookup x V with None => true | Some _ => false end && negb (reserved_b IM x) && pfrag_check V e)%bool
-            then Some (V ++ [(x, Some (ty_int sg w))]) else None
+            if (fresh_b D x && negb (reserved_b IM x) && pfrag_check V e)%bool
+            then Some (D ++ [(x, Some (ty_int sg w))], V ++ [(x, Some (ty_int sg w))]) else None
         | None => None
         end
-    | SEmpty => Some V
-    | SNop => Some V
+    | SDecl ts x None =>
+        match decl_ty_of ts with
+        | Some (sg, w) =>
+            if (fresh_b D x && negb (reserved_b IM x))%bool then Some (D ++ [(x, Some (ty_int sg w))], V) else None
+        | None => None
+        end
+    | SEmpty => Some (D, V)
+    | SNop => Some (D, V)
+    | SCancel => Some (D, V)
     | SStore sg w (ECons a (ECons v ENil)) =>
-        if (okw_b w && pfrag_check V a && pfrag_check V v)%bool then Some V else None
-    | SJump e => if pfrag_check V e then Some V else None
-    | SBlock l => sfrags_check V l
+        if (okw_b w && pfrag_check V a && pfrag_check V v)%bool then Some (D, V) else None
+    | SJump e => if pfrag_check V e then Some (D, V) else None
+    | SBlock l => sfrags_check D V l
     | SIf c t None =>
         if pfrag_check V c then
-          match sfrag_check V t with
-          | Some V1 => if venv_eqb V1 V then Some V else None
+          match sfrag_check D V t with
+          | Some (D1, V1) => if (venv_eqb D1 D && venv_eqb V1 V)%bool then Some (D, V) else None
           | None => None
           end
         else None
     | SIf c t (Some f) =>
         if pfrag_check V c then
-          match sfrag_check V t, sfrag_check V f with
-          | Some V1, Some V2 => if (venv_eqb V1 V && venv_eqb V2 V)%bool then Some V else None
+          match sfrag_check D V t, sfrag_check D V f with
+          | Some (D1, V1), Some (D2, V2) =>
+              if (venv_eqb D1 D && venv_eqb D2 D && venv_eqb V2 V1)%bool then Some (D, V1) else None
           | _, _ => None
           end
         else None
     | _ => None
     end
-  with sfrags_check (V : list (string * option vtype)) (l : cstmts) {struct l} : option (list (string * option vtype)) :=
+  with sfrags_check (D V : list (string * option vtype)) (l : cstmts) {struct l}
+    : option (list (string * option vtype) * list (string * option vtype)) :=
     match l with
-    | SNil => Some V
-    | SCons s t => match sfrag_check V s with Some V1 => sfrags_check V1 t | None => None end
+    | SNil => Some (D, V)
+    | SCons s t => match sfrag_check D V s with Some (D1, V1) => sfrags_check D1 V1 t | None => None end
     end.
 
   (* ================================================================== 3. soundness *)
   Theorem pfrag_check_sound : forall V e, pfrag_check V e = true -> pfrag rw IM V e.
   Proof.
-    intros V.
-    induction e using cexpr_mut with (P0 := fun _ => True) (P1 := fun _ => True) (P2 := fun _ => True);
-      try exact I; cbn [pfrag_check]; try discriminate.
+    intros V. fix IH 1. intros e.
+    destruct e as [o | t e | u e | b e1 e2 | e1 e2 e3 | a l r | inc e | f args | m args | sg w args | items last
+                   | l r | a i | a f | a f | a | t | what]; cbn [pfrag_check]; try discriminate.
     - (* operands *)
-      destruct o as [cls letters | cls letters | | | l | v hex suf | x | |]; try discriminate.
+      destruct o as [cls letters | cls letters | | name new | l | v hex suf | x | |]; try discriminate.
       + intros H. apply andb2 in H. destruct H as [H H0]. apply dest_cls_b_iff in H. apply regw_b_iff in H0. destruct H0 as [acc [Ha Hw]].
         exact (pf_reg rw IM V cls letters acc H Ha Hw).
       + intros H. apply andb2 in H. destruct H as [H H0]. apply reg_cls_b_iff in H. apply newregw_b_iff in H0. destruct H0 as [acc [Ha Hw]].
         exact (pf_newreg rw IM V cls letters acc H Ha Hw).
+      + intros H. apply orb_true_iff in H. destruct H as [H | H].
+        * apply alias_b_iff in H. destruct H as [H H0]. exact (pf_alias rw IM V name new H H0).
+        * apply andb2 in H. destruct H as [H H0]. apply String.eqb_eq in H. apply negb_true_iff in H0. subst name new. exact (pf_pc rw IM V).
       + intros H. exact (pf_imm rw IM V l H).
       + intros H. apply andb2 in H. destruct H as [H H0]. destruct (literal_type v hex suf) as [t|] eqn:El; [|discriminate H0].
         apply Z.leb_le in H. exact (pf_num rw IM V v hex suf t H El).
       + intros H. destruct (intvar_b_sound V x H) as [sg [w [Hl Hw]]]. exact (pf_ident rw IM V x sg w Hl Hw).
-    - (* cast *)
+    - (* cast, and cast of a load *)
       intros H. apply andb2 in H. destruct H as [H H0]. destruct (cast_ty_of t) as [[sg w]|] eqn:Ec; [|discriminate H].
-      apply cast_ty_of_iff in Ec. exact (pf_cast rw IM V t sg w e Ec (IHe H0)).
+      apply cast_ty_of_iff in Ec. apply orb_true_iff in H0. destruct H0 as [H0 | H0].
+      + exact (pf_cast rw IM V t sg w e Ec (IH e H0)).
+      + destruct e as [| | | | | | | | | lsg lw args | | | | | | | |]; try discriminate H0.
+        destruct args as [|x [|y r]]; try discriminate H0.
+        apply andb2 in H0. destruct H0 as [Hw Hx]. apply okw_b_iff in Hw.
+        exact (pf_load rw IM V t sg w lsg lw x Ec Hw (IH x Hx)).
     - (* unary *)
-      intros H. apply andb2 in H. destruct H as [H H0]. apply unop_ok_iff in H. exact (pf_un rw IM V u e H (IHe H0)).
+      intros H. apply andb2 in H. destruct H as [H H0]. apply unop_ok_iff in H. exact (pf_un rw IM V u e H (IH e H0)).
     - (* binary *)
-      intros H. apply andb3 in H. destruct H as [H [H1 H2]]. apply binop_ok_iff in H. exact (pf_bin rw IM V b e1 e2 H (IHe1 H1) (IHe2 H2)).
+      intros H. apply andb3 in H. destruct H as [H [H1 H2]]. apply binop_ok_iff in H. exact (pf_bin rw IM V b e1 e2 H (IH e1 H1) (IH e2 H2)).
     - (* conditional *)
       intros H. apply andb4 in H. destruct H as [H1 [H2 [H3 H4]]]. apply negb_true_iff in H4.
-      exact (pf_cond rw IM V e1 e2 e3 (IHe1 H1) (IHe2 H2) (IHe3 H3) H4).
+      exact (pf_cond rw IM V e1 e2 e3 (IH e1 H1) (IH e2 H2) (IH e3 H3) H4).
+    - (* sizeof *)
+      destruct args as [|x [|y r]]; try discriminate.
+      intros H. apply andb2 in H. destruct H as [H H0]. apply String.eqb_eq in H. subst f. exact (pf_sizeof rw IM V x (IH x H0)).
+    - (* macros *)
+      destruct args as [|x [|s [|l [|f [|g r]]]]]; try discriminate.
+      + intros H. apply andb2 in H. destruct H as [H H0]. apply mac1_b_iff in H. exact (pf_mac1 rw IM V m x H (IH x H0)).
+      + intros H. apply andb4 in H. destruct H as [H [H1 [H2 H3]]]. apply mac3_b_iff in H.
+        exact (pf_mac3 rw IM V m x s l H (IH x H1) (IH s H2) (IH l H3)).
+      + intros H. apply andb2 in H. destruct H as [H H4]. apply andb4 in H. destruct H as [H [H1 [H2 H3]]]. apply mac4_b_iff in H.
+        exact (pf_mac4 rw IM V m x s l f H (IH x H1) (IH s H2) (IH l H3) (IH f H4)).
   Qed.
 
   Theorem pfrag_check_complete : forall V e, pfrag rw IM V e -> pfrag_check V e = true.
   Proof.
     intros V e H.
     induction H as [x sg w Hl Hw | v hex suf t Hv Hl | cls letters acc Hc Ha Hw | cls letters acc Hc Ha Hw | l Hl
-                   | ts sg w e Hts _ IH | u e Hu _ IH | b l r Hb _ IHl _ IHr | c t f _ IHc _ IHt _ IHf Hlit];
+                   | name new Hin Hw |
+                   | ts sg w e Hts _ IH | u e Hu _ IH | b l r Hb _ IHl _ IHr | c t f _ IHc _ IHt _ IHf Hlit
+                   | e _ IH
+                   | ts sg w lsg lw a Hts Hlw _ IH | m x Hm _ IHx | m x s l Hm _ IHx _ IHs _ IHl
+                   | m x s l f Hm _ IHx _ IHs _ IHl _ IHf];
       cbn [pfrag_check].
     - exact (intvar_b_complete V x sg w Hl Hw).
     - rewrite Hl. apply Z.leb_le in Hv. rewrite Hv. reflexivity.
     - apply dest_cls_b_iff in Hc. rewrite Hc. apply (proj2 (regw_b_iff rw cls letters)). eauto.
     - apply reg_cls_b_iff in Hc. rewrite Hc. apply (proj2 (newregw_b_iff rw cls letters)). eauto.
     - exact Hl.
+    - apply orb_true_iff. left. apply alias_b_iff. auto.
+    - apply orb_true_r.
     - apply cast_ty_of_iff in Hts. rewrite Hts, IH. reflexivity.
     - apply unop_ok_iff in Hu. rewrite Hu, IH. reflexivity.
     - apply binop_ok_iff in Hb. rewrite Hb, IHl, IHr. reflexivity.
     - rewrite IHc, IHt, IHf, Hlit. reflexivity.
+    - rewrite IH. reflexivity.
+    - apply cast_ty_of_iff in Hts. rewrite Hts, IH. apply okw_b_iff in Hlw. rewrite Hlw. reflexivity.
+    - apply mac1_b_iff in Hm. rewrite Hm, IHx. reflexivity.
+    - apply mac3_b_iff in Hm. rewrite Hm, IHx, IHs, IHl. reflexivity.
+    - apply mac4_b_iff in Hm. rewrite Hm, IHx, IHs, IHl, IHf. reflexivity.
   Qed.
 
-  Definition sound_s (s : cstmt) : Prop := forall V V', sfrag_check V s = Some V' -> sfrag rw IM V s V'.
-  Definition sound_ss (l : cstmts) : Prop := forall V V', sfrags_check V l = Some V' -> sfrags rw IM V l V'.
+  Lemma carg_b_sound D V e : carg_b D V e = true -> carg rw IM D V e.
+  Proof.
+    unfold carg_b. intros H. apply orb_true_iff in H. destruct H as [H | H].
+    - apply ca_expr. apply pfrag_check_sound. exact H.
+    - destruct e as [o| | | | | | | | | | | | | | | | |]; try discriminate H. destruct o; try discriminate H.
+      apply ca_raw. apply raw_name_b_iff. exact H.
+  Qed.
+  Lemma carg_b_complete D V e : carg rw IM D V e -> carg_b D V e = true.
+  Proof.
+    unfold carg_b. intros [x Hx | e0 He].
+    - apply raw_name_b_iff in Hx. rewrite Hx. apply orb_true_r.
+    - rewrite (pfrag_check_complete V e0 He). reflexivity.
+  Qed.
+
+  Lemma fresh_b_iff D x : fresh_b D x = true <-> lookup x D = None.
+  Proof. unfold fresh_b. destruct (lookup x D); split; intros H; congruence. Qed.
+
+  Definition sound_s (s : cstmt) : Prop := forall D V D' V', sfrag_check D V s = Some (D', V') -> sfrag rw IM D V s D' V'.
+  Definition sound_ss (l : cstmts) : Prop := forall D V D' V', sfrags_check D V l = Some (D', V') -> sfrags rw IM D V l D' V'.
 
   Lemma sound_expr_stmt e : sound_s (SExpr e).
   Proof.
-    intros V V'. cbn [sfrag_check].
-    destruct e as [| | | | | a l r | | | | | | | | | | | |]; try discriminate.
+    intros D V D' V'. cbn [sfrag_check].
+    destruct e as [| | | | | a l r | | f args | | | | | | | | | |]; try discriminate.
+    2:{ destruct args as [|a [|b [|c r]]]; try discriminate.
+        match goal with |- (if ?c then _ else _) = _ -> _ => destruct c eqn:Ec end; [|discriminate].
+        intros H. injection H as <- <-. apply andb3 in Ec. destruct Ec as [Hf [Ha Hb]]. apply String.eqb_eq in Hf. subst f.
+        exact (sf_ssc rw IM D V a b (carg_b_sound D V a Ha) (carg_b_sound D V b Hb)). }
     destruct l as [o| | | | | | | | | | | | | | | | |]; try discriminate.
-    destruct o as [cls letters | | | | | | x | |]; try discriminate.
+    destruct o as [cls letters | | | name new | l0 | | x | |]; try discriminate.
+    3:{ match goal with |- (if ?c then _ else _) = _ -> _ => destruct c eqn:Ec end; [|discriminate].
+        intros H. injection H as <- <-. apply andb3 in Ec. destruct Ec as [Ha [Hl He]].
+        destruct a; try discriminate Ha. apply pfrag_check_sound in He.
+        exact (sf_asg_imm rw IM D V l0 r Hl He). }
+    2:{ match goal with |- (if ?c then _ else _) = _ -> _ => destruct c eqn:Ec end; [|discriminate].
+        intros H. injection H as <- <-. apply andb3 in Ec. destruct Ec as [Ha [Hal He]].
+        destruct a; try discriminate Ha. apply alias_b_iff in Hal. destruct Hal as [Hin Hw]. apply pfrag_check_sound in He.
+        exact (sf_asg_alias rw IM D V name new r Hin Hw He). }
     - match goal with |- (if ?c then _ else _) = _ -> _ => destruct c eqn:Ec end; [|discriminate].
-      intros H. injection H as <-. apply andb4 in Ec. destruct Ec as [H [H1 [H0 Ec]]].
+      intros H. injection H as <- <-. apply andb4 in Ec. destruct Ec as [H [H1 [H0 Ec]]].
       apply dest_cls_b_iff in H1. apply regw_b_iff in H0. destruct H0 as [acc [Ha Hw]]. apply pfrag_check_sound in Ec.
-      destruct a; try (apply casg_ok_iff in H; exact (sf_casg_reg rw IM V _ cls letters acc r H H1 Ha Hw Ec)).
-      exact (sf_asg_reg rw IM V cls letters acc r H1 Ha Hw Ec).
-    - match goal with |- (if ?c then _ else _) = _ -> _ => destruct c eqn:Ec end; [|discriminate].
-      intros H. injection H as <-. apply andb3 in Ec. destruct Ec as [H [H0 Ec]].
-      destruct (intvar_b_sound V x H0) as [sg [w [Hl Hw]]]. apply pfrag_check_sound in Ec.
-      destruct a; try (apply casg_ok_iff in H; exact (sf_casg_var rw IM V _ x sg w r H Hl Hw Ec)).
-      exact (sf_asg_var rw IM V x sg w r Hl Hw Ec).
+      destruct a; try (apply casg_ok_iff in H; destruct H as [H | H];
+                       [exact (sf_casg_reg rw IM D V _ cls letters acc r H H1 Ha Hw Ec) | exact (sf_basg_reg rw IM D V _ cls letters acc r H H1 Ha Hw Ec)]).
+      exact (sf_asg_reg rw IM D V cls letters acc r H1 Ha Hw Ec).
+    - match goal with |- (if ?c then _ else _) = _ -> _ => destruct c eqn:Ec end.
+      + intros H. injection H as <- <-. apply andb3 in Ec. destruct Ec as [H [H0 Ec]].
+        destruct (intvar_b_sound V x H0) as [sg [w [Hl Hw]]]. apply pfrag_check_sound in Ec.
+        destruct a; try (apply casg_ok_iff in H; destruct H as [H | H];
+                         [exact (sf_casg_var rw IM D V _ x sg w r H Hl Hw Ec) | exact (sf_basg_var rw IM D V _ x sg w r H Hl Hw Ec)]).
+        exact (sf_asg_var rw IM D V x sg w r Hl Hw Ec).
+      + clear Ec. match goal with |- (if ?c then _ else _) = _ -> _ => destruct c eqn:Ec end; [|discriminate].
+        apply andb3 in Ec. destruct Ec as [Ha [Hv He]]. destruct a; try discriminate Ha. apply fresh_b_iff in Hv. apply pfrag_check_sound in He.
+        destruct (lookup x D) as [[t|]|] eqn:El; try discriminate.
+        * match goal with |- (if ?c then _ else _) = _ -> _ => destruct c eqn:Ec end; [|discriminate].
+          intros H. injection H as <- <-. apply andb2 in Ec. destruct Ec as [Ht Hw]. apply vtype_seqb_sound in Ht. apply okw_b_iff in Hw.
+          rewrite Ht in El. exact (sf_asg_first rw IM D V x (vt_sg t) (vt_w t) r El Hv Hw He).
+        * match goal with |- (if ?c then _ else _) = _ -> _ => destruct c eqn:Ec end; [|discriminate].
+          intros H. injection H as <- <-. apply andb2 in Ec. destruct Ec as [Hi Hr].
+          apply implicit_b_iff in Hi. apply negb_true_iff in Hr. apply reserved_b_false in Hr.
+          exact (sf_asg_implicit rw IM D V x r Hi El Hv Hr He).
   Qed.
 
   (* (the Scheme of Ast gives no induction hypothesis for the else-branch, which sits under an option: direct
@@ -413,93 +562,123 @@ Section Check.
   with sfrag_check_sound_ss : forall l, sound_ss l.
   Proof.
     - intros s. destruct s as [e | | ts x init | what | c t f | i c st b | l | sg w args | e | | | e | c b | b c | c b | lb b | b | lb | |];
-        try (intros V V' H; cbn [sfrag_check] in H; discriminate H).
+        try (intros D V D' V' H; cbn [sfrag_check] in H; discriminate H).
       + (* SExpr *) apply sound_expr_stmt.
-      + (* SEmpty *) intros V V' H. cbn [sfrag_check] in H. injection H as <-. apply sf_empty.
+      + (* SEmpty *) intros D V D' V' H. cbn [sfrag_check] in H. injection H as <- <-. apply sf_empty.
       + (* SDecl *)
-        intros V V' H. cbn [sfrag_check] in H. destruct init as [e|]; [|discriminate H].
-        destruct (decl_ty_of ts) as [[sg w]|] eqn:Ed; [|discriminate H].
-        match type of H with (if ?c then _ else _) = _ => destruct c eqn:Ec end; [|discriminate H].
-        injection H as <-. apply andb3 in Ec. destruct Ec as [H [H0 Ec]].
-        apply decl_ty_of_iff in Ed. apply negb_true_iff in H0. apply reserved_b_false in H0.
-        apply pfrag_check_sound in Ec. destruct (lookup x V) eqn:El; [discriminate H|].
-        exact (sf_decl rw IM V ts sg w x e Ed El H0 Ec).
+        intros D V D' V' H. cbn [sfrag_check] in H. destruct init as [e|].
+        * destruct (decl_ty_of ts) as [[sg w]|] eqn:Ed; [|discriminate H].
+          match type of H with (if ?c then _ else _) = _ => destruct c eqn:Ec end; [|discriminate H].
+          injection H as <- <-. apply andb3 in Ec. destruct Ec as [H [H0 Ec]].
+          apply decl_ty_of_iff in Ed. apply negb_true_iff in H0. apply reserved_b_false in H0. apply fresh_b_iff in H.
+          apply pfrag_check_sound in Ec.
+          exact (sf_decl rw IM D V ts sg w x e Ed H H0 Ec).
+        * destruct (decl_ty_of ts) as [[sg w]|] eqn:Ed; [|discriminate H].
+          match type of H with (if ?c then _ else _) = _ => destruct c eqn:Ec end; [|discriminate H].
+          injection H as <- <-. apply andb2 in Ec. destruct Ec as [H H0].
+          apply decl_ty_of_iff in Ed. apply negb_true_iff in H0. apply reserved_b_false in H0. apply fresh_b_iff in H.
+          exact (sf_decl0 rw IM D V ts sg w x Ed H H0).
       + (* SIf *)
-        intros V V' H. cbn [sfrag_check] in H.
+        intros D V D' V' H. cbn [sfrag_check] in H.
         destruct f as [f|].
         * destruct (pfrag_check V c) eqn:Ec; [|discriminate H]. apply pfrag_check_sound in Ec.
-          destruct (sfrag_check V t) as [V1|] eqn:Et; [|discriminate H].
-          destruct (sfrag_check V f) as [V2|] eqn:Ef; [|discriminate H].
-          destruct (venv_eqb V1 V && venv_eqb V2 V)%bool eqn:Ev; [|discriminate H]. injection H as <-.
-          apply andb2 in Ev. destruct Ev as [H H0]. apply venv_eqb_sound in H, H0. subst V1 V2.
-          exact (sf_ifelse rw IM V c t f Ec (sfrag_check_sound_s t V V Et) (sfrag_check_sound_s f V V Ef)).
+          destruct (sfrag_check D V t) as [[D1 V1]|] eqn:Et; [|discriminate H].
+          destruct (sfrag_check D V f) as [[D2 V2]|] eqn:Ef; [|discriminate H].
+          destruct (venv_eqb D1 D && venv_eqb D2 D && venv_eqb V2 V1)%bool eqn:Ev; [|discriminate H]. injection H as <- <-.
+          apply andb3 in Ev. destruct Ev as [H [H0 H1]]. apply venv_eqb_sound in H, H0, H1. subst D1 D2 V2.
+          exact (sf_ifelse rw IM D V c t f V1 Ec (sfrag_check_sound_s t D V D V1 Et) (sfrag_check_sound_s f D V D V1 Ef)).
         * destruct (pfrag_check V c) eqn:Ec; [|discriminate H]. apply pfrag_check_sound in Ec.
-          destruct (sfrag_check V t) as [V1|] eqn:Et; [|discriminate H].
-          destruct (venv_eqb V1 V) eqn:Ev; [|discriminate H]. injection H as <-.
-          apply venv_eqb_sound in Ev. subst V1.
-          exact (sf_if rw IM V c t Ec (sfrag_check_sound_s t V V Et)).
-      + (* SBlock *) intros V V' H. cbn [sfrag_check] in H. apply sf_block. exact (sfrag_check_sound_ss l V V' H).
+          destruct (sfrag_check D V t) as [[D1 V1]|] eqn:Et; [|discriminate H].
+          destruct (venv_eqb D1 D && venv_eqb V1 V)%bool eqn:Ev; [|discriminate H]. injection H as <- <-.
+          apply andb2 in Ev. destruct Ev as [H H0]. apply venv_eqb_sound in H, H0. subst D1 V1.
+          exact (sf_if rw IM D V c t Ec (sfrag_check_sound_s t D V D V Et)).
+      + (* SBlock *) intros D V D' V' H. cbn [sfrag_check] in H. apply sf_block. exact (sfrag_check_sound_ss l D V D' V' H).
       + (* SStore *)
-        intros V V' H. cbn [sfrag_check] in H.
+        intros D V D' V' H. cbn [sfrag_check] in H.
         destruct args as [|a [|v [|x0 r]]]; try discriminate H.
         match type of H with (if ?c then _ else _) = _ => destruct c eqn:Ec end; [|discriminate H].
-        injection H as <-. apply andb3 in Ec. destruct Ec as [H [H0 Ec]]. apply okw_b_iff in H. apply pfrag_check_sound in H0, Ec.
-        exact (sf_store rw IM V sg w a v H H0 Ec).
+        injection H as <- <-. apply andb3 in Ec. destruct Ec as [H [H0 Ec]]. apply okw_b_iff in H. apply pfrag_check_sound in H0, Ec.
+        exact (sf_store rw IM D V sg w a v H H0 Ec).
       + (* SJump *)
-        intros V V' H. cbn [sfrag_check] in H. destruct (pfrag_check V e) eqn:Ec; [|discriminate H].
-        injection H as <-. apply sf_jump. apply pfrag_check_sound. exact Ec.
-      + (* SNop *) intros V V' H. cbn [sfrag_check] in H. injection H as <-. apply sf_nop.
-    - intros l. destruct l as [|s t]; intros V V' H; cbn [sfrags_check] in H.
-      + injection H as <-. apply sfs_nil.
-      + destruct (sfrag_check V s) as [V1|] eqn:Es; [|discriminate H].
-        exact (sfs_cons rw IM V s V1 t V' (sfrag_check_sound_s s V V1 Es) (sfrag_check_sound_ss t V1 V' H)).
+        intros D V D' V' H. cbn [sfrag_check] in H. destruct (pfrag_check V e) eqn:Ec; [|discriminate H].
+        injection H as <- <-. apply sf_jump. apply pfrag_check_sound. exact Ec.
+      + (* SNop *) intros D V D' V' H. cbn [sfrag_check] in H. injection H as <- <-. apply sf_nop.
+      + (* SCancel *) intros D V D' V' H. cbn [sfrag_check] in H. injection H as <- <-. apply sf_cancel.
+    - intros l. destruct l as [|s t]; intros D V D' V' H; cbn [sfrags_check] in H.
+      + injection H as <- <-. apply sfs_nil.
+      + destruct (sfrag_check D V s) as [[D1 V1]|] eqn:Es; [|discriminate H].
+        exact (sfs_cons rw IM D V s D1 V1 t D' V' (sfrag_check_sound_s s D V D1 V1 Es) (sfrag_check_sound_ss t D1 V1 D' V' H)).
   Qed.
 
-  Theorem sfrag_check_sound : forall V s V', sfrag_check V s = Some V' -> sfrag rw IM V s V'.
-  Proof. intros V s V'. apply sfrag_check_sound_s. Qed.
-  Theorem sfrags_check_sound : forall V l V', sfrags_check V l = Some V' -> sfrags rw IM V l V'.
-  Proof. intros V l V'. apply sfrag_check_sound_ss. Qed.
+  Theorem sfrag_check_sound : forall D V s D' V', sfrag_check D V s = Some (D', V') -> sfrag rw IM D V s D' V'.
+  Proof. intros D V s D' V'. apply sfrag_check_sound_s. Qed.
+  Theorem sfrags_check_sound : forall D V l D' V', sfrags_check D V l = Some (D', V') -> sfrags rw IM D V l D' V'.
+  Proof. intros D V l D' V'. apply sfrag_check_sound_ss. Qed.
 End Check.
 
 (* completeness of the statement checkers *)
 Theorem sfrag_check_complete_both rw IM :
-  (forall V s V', sfrag rw IM V s V' -> sfrag_check rw IM V s = Some V') /\
-  (forall V l V', sfrags rw IM V l V' -> sfrags_check rw IM V l = Some V').
+  (forall D V s D' V', sfrag rw IM D V s D' V' -> sfrag_check rw IM D V s = Some (D', V')) /\
+  (forall D V l D' V', sfrags rw IM D V l D' V' -> sfrags_check rw IM D V l = Some (D', V')).
 Proof.
   apply sfrag_mutind.
-  - intros V cls letters acc e Hc Ha Hw He. cbn [sfrag_check].
+  - intros D V cls letters acc e Hc Ha Hw He. cbn [sfrag_check].
     rewrite (proj2 (dest_cls_b_iff cls) Hc), (proj2 (regw_b_iff rw cls letters) (ex_intro _ acc (conj Ha Hw))),
       (pfrag_check_complete rw IM V e He). reflexivity.
-  - intros V x sg w e Hl Hw He. cbn [sfrag_check].
+  - intros D V name new e Hin Hw He. cbn [sfrag_check].
+    rewrite (proj2 (alias_b_iff rw name new) (conj Hin Hw)), (pfrag_check_complete rw IM V e He). reflexivity.
+  - intros D V l e Hl He. cbn [sfrag_check]. rewrite Hl, (pfrag_check_complete rw IM V e He). reflexivity.
+  - intros D V x sg w e Hl Hw He. cbn [sfrag_check].
     rewrite (intvar_b_complete V x sg w Hl Hw), (pfrag_check_complete rw IM V e He). reflexivity.
-  - intros V a x sg w e Ha Hl Hw He. cbn [sfrag_check].
+  - (* first assignment *)
+    intros D V x sg w e HlD HlV Hw He. cbn [sfrag_check].
+    assert (Hiv : intvar_b V x = false) by (unfold intvar_b; rewrite HlV; reflexivity).
+    rewrite Hiv, (proj2 (fresh_b_iff V x) HlV), (pfrag_check_complete rw IM V e He), HlD. cbn [andb ty_int vt_sg vt_w].
+    fold (ty_int sg w). rewrite vtype_seqb_refl, (proj2 (okw_b_iff w) Hw). reflexivity.
+  - (* implicit *)
+    intros D V x e Hi HlD HlV Hr He. cbn [sfrag_check].
+    assert (Hiv : intvar_b V x = false) by (unfold intvar_b; rewrite HlV; reflexivity).
+    rewrite Hiv, (proj2 (fresh_b_iff V x) HlV), (pfrag_check_complete rw IM V e He), HlD,
+      (proj2 (implicit_b_iff x) Hi), (proj2 (reserved_b_false IM x) Hr). reflexivity.
+  - intros D V a x sg w e Ha Hl Hw He. cbn [sfrag_check].
     rewrite (intvar_b_complete V x sg w Hl Hw), (pfrag_check_complete rw IM V e He).
     destruct Ha as [-> | [-> | ->]]; reflexivity.
-  - intros V a cls letters acc e Ha Hc Hacc Hw He. cbn [sfrag_check].
+  - intros D V a x sg w e Ha Hl Hw He. cbn [sfrag_check].
+    rewrite (intvar_b_complete V x sg w Hl Hw), (pfrag_check_complete rw IM V e He).
+    destruct Ha as [-> | [-> | ->]]; reflexivity.
+  - intros D V a cls letters acc e Ha Hc Hacc Hw He. cbn [sfrag_check].
     rewrite (proj2 (dest_cls_b_iff cls) Hc), (proj2 (regw_b_iff rw cls letters) (ex_intro _ acc (conj Hacc Hw))),
       (pfrag_check_complete rw IM V e He).
     destruct Ha as [-> | [-> | ->]]; reflexivity.
-  - intros V ts sg w x e Hd Hl Hr He. cbn [sfrag_check].
-    rewrite (proj2 (decl_ty_of_iff ts sg w) Hd), Hl, (proj2 (reserved_b_false IM x) Hr), (pfrag_check_complete rw IM V e He).
+  - intros D V a cls letters acc e Ha Hc Hacc Hw He. cbn [sfrag_check].
+    rewrite (proj2 (dest_cls_b_iff cls) Hc), (proj2 (regw_b_iff rw cls letters) (ex_intro _ acc (conj Hacc Hw))),
+      (pfrag_check_complete rw IM V e He).
+    destruct Ha as [-> | [-> | ->]]; reflexivity.
+  - intros D V ts sg w x e Hd Hl Hr He. cbn [sfrag_check].
+    rewrite (proj2 (decl_ty_of_iff ts sg w) Hd), (proj2 (fresh_b_iff D x) Hl), (proj2 (reserved_b_false IM x) Hr), (pfrag_check_complete rw IM V e He).
     reflexivity.
+  - intros D V ts sg w x Hd Hl Hr. cbn [sfrag_check].
+    rewrite (proj2 (decl_ty_of_iff ts sg w) Hd), (proj2 (fresh_b_iff D x) Hl), (proj2 (reserved_b_false IM x) Hr). reflexivity.
   - reflexivity.
   - reflexivity.
-  - intros V sg w a v Hw Ha Hv. cbn [sfrag_check].
+  - reflexivity.
+  - intros D V a b Ha Hb. cbn [sfrag_check]. rewrite (carg_b_complete rw IM D V a Ha), (carg_b_complete rw IM D V b Hb). reflexivity.
+  - intros D V sg w a v Hw Ha Hv. cbn [sfrag_check].
     rewrite (proj2 (okw_b_iff w) Hw), (pfrag_check_complete rw IM V a Ha), (pfrag_check_complete rw IM V v Hv). reflexivity.
-  - intros V e He. cbn [sfrag_check]. rewrite (pfrag_check_complete rw IM V e He). reflexivity.
-  - intros V l V' _ IH. exact IH.
-  - intros V c t Hc _ IHt. cbn [sfrag_check]. rewrite (pfrag_check_complete rw IM V c Hc), IHt, venv_eqb_refl. reflexivity.
-  - intros V c t f Hc _ IHt _ IHf. cbn [sfrag_check].
-    rewrite (pfrag_check_complete rw IM V c Hc), IHt, IHf, venv_eqb_refl. reflexivity.
+  - intros D V e He. cbn [sfrag_check]. rewrite (pfrag_check_complete rw IM V e He). reflexivity.
+  - intros D V l D' V' _ IH. exact IH.
+  - intros D V c t Hc _ IHt. cbn [sfrag_check]. rewrite (pfrag_check_complete rw IM V c Hc), IHt, !venv_eqb_refl. reflexivity.
+  - intros D V c t f V1 Hc _ IHt _ IHf. cbn [sfrag_check].
+    rewrite (pfrag_check_complete rw IM V c Hc), IHt, IHf, !venv_eqb_refl. reflexivity.
   - reflexivity.
-  - intros V s V1 l V2 _ IHs _ IHl.
-    change (sfrags_check rw IM V (SCons s l))
-      with (match sfrag_check rw IM V s with Some V0 => sfrags_check rw IM V0 l | None => None end).
+  - intros D V s D1 V1 l D2 V2 _ IHs _ IHl.
+    change (sfrags_check rw IM D V (SCons s l))
+      with (match sfrag_check rw IM D V s with Some (D0, V0) => sfrags_check rw IM D0 V0 l | None => None end).
     rewrite IHs. exact IHl.
 Qed.
-Theorem sfrag_check_complete rw IM V s V' : sfrag rw IM V s V' -> sfrag_check rw IM V s = Some V'.
+Theorem sfrag_check_complete rw IM D V s D' V' : sfrag rw IM D V s D' V' -> sfrag_check rw IM D V s = Some (D', V').
 Proof. apply (proj1 (sfrag_check_complete_both rw IM)). Qed.
-Theorem sfrags_check_complete rw IM V l V' : sfrags rw IM V l V' -> sfrags_check rw IM V l = Some V'.
+Theorem sfrags_check_complete rw IM D V l D' V' : sfrags rw IM D V l D' V' -> sfrags_check rw IM D V l = Some (D', V').
 Proof. apply (proj2 (sfrag_check_complete_both rw IM)). Qed.
 
 Print Assumptions pfrag_check_sound.
@@ -671,6 +850,19 @@ Definition no_params (c : config) : config :=
 Definition cfg_thm (h : N) : config := no_params (with_fx all_fixes (cfg_insn h)).
 
 Lemma cfg_thm_fx h : cfg_fx (cfg_thm h) = all_fixes. Proof. reflexivity. Qed.
+(* the real macro table gives QEMU's bit-field macros the signatures the theorems assume *)
+Lemma macs_std_macs0 : macs_std macs0.
+Proof. intros sg H. cbn [std_macs In] in H. repeat (destruct H as [<- | H]; [vm_compute; reflexivity|]). contradiction. Qed.
+Lemma cfg_insn_macs h : macs_std (cfg_macros (cfg_insn h)). Proof. exact macs_std_macs0. Qed.
+Lemma cfg_thm_macs h : macs_std (cfg_macros (cfg_thm h)). Proof. exact macs_std_macs0. Qed.
+(* STORE_SLOT_CANCELLED is not one of the compiled sub-routines, and the C sub-routine table of the harness has no body for it *)
+(* neither sub-routine table knows the names STORE_SLOT_CANCELLED / sizeof *)
+Lemma subs_ext_subs0 : subs_ext Resources.subs0.
+Proof. intros f H. cbn [ext_calls In] in H. repeat (destruct H as [<- | H]; [reflexivity|]). contradiction. Qed.
+Lemma cfg_thm_ssc h : subs_ext (cfg_subs (cfg_thm h)). Proof. exact subs_ext_subs0. Qed.
+Lemma cfg_insn_ssc h : subs_ext (cfg_subs (cfg_insn h)). Proof. exact subs_ext_subs0. Qed.
+Lemma csub_table_ext : csub_ext csub_table.
+Proof. intros f H. cbn [ext_calls In] in H. repeat (destruct H as [<- | H]; [reflexivity|]). contradiction. Qed.
 Lemma cfg_thm_params h : cfg_params (cfg_thm h) = []. Proof. reflexivity. Qed.
 Lemma cfg_thm_hstart h : cfg_hstart (cfg_thm h) = h. Proof. reflexivity. Qed.
 (* the real configuration does have parameters *)
@@ -678,34 +870,36 @@ Lemma cfg_insn_params h : map fst (cfg_params (cfg_insn h)) = ["pkt"; "hi"; "bun
 
 Definition covered (h : N) (prog : cstmts) : bool :=
   im_ok_b (IM_of prog) &&
-  (match sfrags_check (rw_of_prog prog) (IM_of prog) [] prog with Some _ => true | None => false end) &&
+  (match sfrags_check (rw_of_prog prog) (IM_of prog) [] [] prog with Some _ => true | None => false end) &&
   tinfo_res_eqb (tlower_info (cfg_insn h) prog) (tlower_info (cfg_thm h) prog).
 
+(* D' = the locals the behaviour declares, V' = those of them it has given a value *)
 Theorem covered_correct : forall h prog, covered h prog = true ->
-  exists eff V', tlower_info (cfg_insn h) prog = OK (mkti eff h 0 false []) /\
-    forall ilsubs E csub xi cs ms fuel cs', srel (IM_of prog) E [] cs ms -> cexecs E csub xi fuel cs prog = Some cs' ->
-      exists ms', runs (rw_of_prog prog) ilsubs eff ms ms' /\ srel (IM_of prog) E V' cs' ms'.
+  exists eff D' V', tlower_info (cfg_insn h) prog = OK (mkti eff h 0 false []) /\
+    forall ilsubs E csub xi cs ms fuel cs', csub_ext csub ->
+      srel (IM_of prog) E [] [] cs ms -> imm_fresh (IM_of prog) cs -> cexecs E csub xi fuel cs prog = Some cs' ->
+      exists ms', runs (rw_of_prog prog) ilsubs eff ms ms' /\ srel (IM_of prog) E D' V' cs' ms'.
 Proof.
   intros h prog H. unfold covered in H. apply andb3 in H. destruct H as [Him [Hfrag Heq]].
   apply im_ok_b_iff in Him. apply tinfo_res_eqb_sound in Heq.
-  destruct (sfrags_check (rw_of_prog prog) (IM_of prog) [] prog) as [V'|] eqn:Ec; [|discriminate Hfrag].
+  destruct (sfrags_check (rw_of_prog prog) (IM_of prog) [] [] prog) as [[D' V']|] eqn:Ec; [|discriminate Hfrag].
   apply sfrags_check_sound in Ec.
   destruct (tlower_info (cfg_thm h) prog) as [[eff hc lo dr rm]|msg] eqn:Ei.
-  - exists eff, V'.
+  - exists eff, D', V'.
     assert (Hshape : hc = h /\ lo = 0%nat /\ dr = false /\ rm = []).
     { destruct (tlower_correct (cfg_thm h) (rw_of_prog prog) (IM_of prog) (fun _ => None) Example.env Example.nosubs Example.noxi
-                  prog V' (cfg_thm_fx h) (cfg_thm_params h) Him Ec) as [eff0 [Hi0 _]].
+                  prog D' V' (cfg_thm_fx h) (cfg_thm_params h) (cfg_thm_macs h) (cfg_thm_ssc h) csub_ext_none Him Ec) as [eff0 [Hi0 _]].
       rewrite Ei in Hi0. rewrite cfg_thm_hstart in Hi0. injection Hi0 as _ -> -> -> ->. auto. }
     destruct Hshape as [-> [-> [-> ->]]].
     split; [exact Heq|].
-    intros ilsubs E csub xi cs ms fuel cs' Hrel Hce.
-    destruct (tlower_correct (cfg_thm h) (rw_of_prog prog) (IM_of prog) ilsubs E csub xi prog V'
-                (cfg_thm_fx h) (cfg_thm_params h) Him Ec) as [eff0 [Hi0 [_ Hsim]]].
+    intros ilsubs E csub xi cs ms fuel cs' Hcs Hrel Hfr Hce.
+    destruct (tlower_correct (cfg_thm h) (rw_of_prog prog) (IM_of prog) ilsubs E csub xi prog D' V'
+                (cfg_thm_fx h) (cfg_thm_params h) (cfg_thm_macs h) (cfg_thm_ssc h) Hcs Him Ec) as [eff0 [Hi0 [_ Hsim]]].
     rewrite Ei in Hi0. injection Hi0 as <-.
-    exact (Hsim cs ms fuel cs' Hrel Hce).
+    exact (Hsim cs ms fuel cs' Hrel Hfr Hce).
   - exfalso.
     destruct (tlower_correct (cfg_thm h) (rw_of_prog prog) (IM_of prog) (fun _ => None) Example.env Example.nosubs Example.noxi
-                prog V' (cfg_thm_fx h) (cfg_thm_params h) Him Ec) as [eff0 [Hi0 _]].
+                prog D' V' (cfg_thm_fx h) (cfg_thm_params h) (cfg_thm_macs h) (cfg_thm_ssc h) csub_ext_none Him Ec) as [eff0 [Hi0 _]].
     rewrite Ei in Hi0. discriminate Hi0.
 Qed.
 Print Assumptions covered_correct.
@@ -736,6 +930,292 @@ Module CheckExamples.
   Example covered_positive : map (covered 0) [p_add; p_addi; p_mux; p_pair; p_mac; p_store] = [true; true; true; true; true; true].
   Proof. vm_compute. reflexivity. Qed.
 
+  (* --- memory loads, QEMU's bit-field macros, cancel_slot --- *)
+  Definition mac (m : string) (l : list cexpr) : cexpr := EMacro m (fold_right ECons ENil l).
+  Definition load (ts : tyspec) (sg : bool) (w : N) (a : cexpr) : cexpr := ECast ts (ELoad sg w (ECons a ENil)).
+  (* { RdV = sextract64(RssV, 0, 8); } *)
+  Definition p_sxtb := one (asg (reg "R" "d") (mac "sextract64" [reg "R" "ss"; num 0; num 8])).
+  (* { RdV = extract64(RssV, 8, 16); } *)
+  Definition p_ext64 := one (asg (reg "R" "d") (mac "extract64" [reg "R" "ss"; num 8; num 16])).
+  (* { RdV = extract32(RsV, uiV, 5); } *)
+  Definition p_ext32 := one (asg (reg "R" "d") (mac "extract32" [reg "R" "s"; imm "u"; num 5])).
+  (* { RxV = deposit32(RxV, 0, 16, RsV); } *)
+  Definition p_dep32 := one (asg (reg "R" "x") (mac "deposit32" [reg "R" "x"; num 0; num 16; reg "R" "s"])).
+  (* { RddV = deposit64(RssV, 32, 32, RttV); } *)
+  Definition p_dep64 := one (asg (reg "R" "dd") (mac "deposit64" [reg "R" "ss"; num 32; num 32; reg "R" "tt"])).
+  (* { RdV = bswap32(RsV); } *)
+  Definition p_bswap := one (asg (reg "R" "d") (mac "bswap32" [reg "R" "s"])).
+  (* { RdV = (size2s_t) mem_load_s16(RsV + siV); } *)
+  Definition p_loadh := one (asg (reg "R" "d") (load [TS_sizeN 2 true] true 16 (EBin Ast.BAdd (reg "R" "s") (imm "s")))).
+  (* { RddV = (size8u_t) mem_load_u64(RsV); } *)
+  Definition p_loadd := one (asg (reg "R" "dd") (load [TS_sizeN 8 false] false 64 (reg "R" "s"))).
+  (* { if (!PvV) { cancel_slot; } else { mem_store_u32(RsV, RtV); } } *)
+  Definition p_pstore :=
+    one (SIf (EUn ULNot (reg "P" "v")) (SBlock (one SCancel))
+             (Some (SBlock (one (SStore false 32 (ECons (reg "R" "s") (ECons (reg "R" "t") ENil))))))).
+  (* { if (PtV) { RdV = (size1u_t) mem_load_u8(RsV + uiV); } else { cancel_slot; } } *)
+  Definition p_pload :=
+    one (SIf (reg "P" "t") (SBlock (one (asg (reg "R" "d") (load [TS_sizeN 1 false] false 8 (EBin Ast.BAdd (reg "R" "s") (imm "u"))))))
+             (Some (SBlock (one SCancel)))).
+  (* L2_ploadrubt_io:  { EA = RsV + uiV; if (PtV & 1) { RdV = (size1u_t) mem_load_u8(EA); } else { cancel_slot; } }
+     (EA is declared implicitly by its first assignment) *)
+  Definition p_pload_ea :=
+    SCons (asg (var "EA") (EBin Ast.BAdd (reg "R" "s") (imm "u")))
+   (SCons (SIf (EBin Ast.BAnd (reg "P" "t") (num 1))
+               (SBlock (one (asg (reg "R" "d") (load [TS_sizeN 1 false] false 8 (var "EA")))))
+               (Some (SBlock (one SCancel)))) SNil).
+  (* L2_loadri_pi:  { EA = RxV; RxV = RxV + siV; RdV = (size4u_t) mem_load_u32(EA); } *)
+  Definition p_load_pi :=
+    SCons (asg (var "EA") (reg "R" "x"))
+   (SCons (asg (reg "R" "x") (EBin Ast.BAdd (reg "R" "x") (imm "s")))
+   (SCons (asg (reg "R" "d") (load [TS_sizeN 4 false] false 32 (var "EA"))) SNil)).
+  (* S2_storerh_io:  { EA = RsV + siV; mem_store_u16(EA, RtV); } *)
+  Definition p_store_ea :=
+    SCons (asg (var "EA") (EBin Ast.BAdd (reg "R" "s") (imm "s")))
+   (SCons (SStore false 16 (ECons (var "EA") (ECons (reg "R" "t") ENil))) SNil).
+  (* S2_pstorerbt_io:  { EA = RsV + uiV; if (PvV & 1) { mem_store_u8(EA, RtV); } else { STORE_SLOT_CANCELLED(pkt, slot); } }
+     (the call statement; its arguments are passed on as text: the emitted effect is HEX_STORE_SLOT_CANCELLED(pkt, hi->slot)) *)
+  Definition ssc (a b : string) : cstmt := SExpr (Ast.ECall "STORE_SLOT_CANCELLED" (ECons (var a) (ECons (var b) ENil))).
+  Definition p_pstore_ea (a b : string) :=
+    SCons (asg (var "EA") (EBin Ast.BAdd (reg "R" "s") (imm "u")))
+   (SCons (SIf (EBin Ast.BAnd (reg "P" "v") (num 1))
+               (SBlock (one (SStore false 8 (ECons (var "EA") (ECons (reg "R" "t") ENil)))))
+               (Some (SBlock (one (ssc a b))))) SNil).
+  Example covered_store_slot_cancelled : map (covered 0) [p_pstore_ea "pkt" "slot"; p_pstore_ea "thread" "slot"] = [true; true].
+  Proof. vm_compute. reflexivity. Qed.
+  Example p_pstore_ea_lowered :
+    tlower (cfg_insn 0) (p_pstore_ea "pkt" "slot") =
+    OK (ESeq (ESetL "u" (PImm "u" false 32))
+       (ESeq (ESetL "EA" (PBin RzIL.BAdd (PCast 32 (PBool false) (PReg (RIsa "R" "s" false) false)) (PVarL "u")))
+             (EBranch (PNonZero (PBin BLogAnd (PCast 32 (PMsb (PReg (RIsa "P" "v" false) false)) (PReg (RIsa "P" "v" false) false)) (PBv true 32 1)))
+                      (EStore (PVarL "EA") (PCast 8 (PBool false) (PReg (RIsa "R" "t" false) false)))
+                      (EPlugin "HEX_STORE_SLOT_CANCELLED" [ARaw "pkt"; ARaw "hi->slot"]))), 0%N).
+  Proof. vm_compute. reflexivity. Qed.
+
+  (* --- the program counter alias (read only) --- *)
+  (* { RdV = HEX_REG_ALIAS_PC + uiV; }   { JUMP(HEX_REG_ALIAS_PC + 8); } *)
+  Definition p_pc_rd := one (asg (reg "R" "d") (EBin Ast.BAdd (EOp (OAlias "PC" false)) (imm "u"))).
+  Definition p_pc_jump := one (SJump (EBin Ast.BAdd (EOp (OAlias "PC" false)) (num 8))).
+  Example covered_pc : map (covered 0) [p_pc_rd; p_pc_jump] = [true; true].
+  Proof. vm_compute. reflexivity. Qed.
+  Example p_pc_jump_lowered :
+    tlower (cfg_insn 0) p_pc_jump =
+    OK (ESeq (ESetL "jump_flag" (PBool true)) (ESetL "jump_target" (PBin RzIL.BAdd PPktAddr (PCast 32 (PBool false) (PBv true 32 8)))), 0%N).
+  Proof. vm_compute. reflexivity. Qed.
+  (* a write to the alias is outside the fragment: the emitted effect names an undeclared operand handle *)
+  Definition p_pc_wr := one (asg (EOp (OAlias "PC" false)) (reg "R" "s")).
+  Example pc_write_not_covered : covered 0 p_pc_wr = false /\
+    tlower (cfg_insn 0) p_pc_wr = OK (EWriteReg (RParam "pc_op") (PCast 32 (PBool false) (PReg (RIsa "R" "s" false) false)), 0%N).
+  Proof. split; vm_compute; reflexivity. Qed.
+
+  (* --- an immediate is assigned --- *)
+  (* J2_jump:  { riV = riV & ~3; JUMP(HEX_REG_ALIAS_PC + riV); }     (fIMMEXT; fPCALIGN; fJUMP(fREAD_PC() + riV)) *)
+  Definition p_jump :=
+    SCons (asg (imm "r") (EBin Ast.BAnd (imm "r") (EUn UNot (num 3))))
+   (SCons (SJump (EBin Ast.BAdd (EOp (OAlias "PC" false)) (imm "r"))) SNil).
+  Example covered_jump : covered 0 p_jump = true.
+  Proof. vm_compute. reflexivity. Qed.
+  Example p_jump_lowered :
+    tlower (cfg_insn 0) p_jump =
+    OK (ESeq (ESetL "r" (PImm "r" true 32))
+       (ESeq (ESetL "r" (PBin BLogAnd (PVarL "r") (PBv true 32 (-4))))
+       (ESeq (ESetL "jump_flag" (PBool true))
+             (ESetL "jump_target" (PBin RzIL.BAdd PPktAddr (PCast 32 (PBool false) (PVarL "r")))))), 0%N).
+  Proof. vm_compute. reflexivity. Qed.
+  (* executed: riV = 0x1f6 (502), packet address 0x1000: the target is 0x1000 + 0x1f4 = 4596 *)
+  Definition env_jump : cenv := mkce (fun _ => 0%Z) (fun _ => 0%Z) (fun l => if String.eqb l "r" then 502%Z else 0%Z) 4096%Z (fun _ => 0%Z).
+  Example p_jump_simulated : forall ilsubs,
+    exists eff cs' ms', tlower_info (cfg_insn 0) p_jump = OK (mkti eff 0 0 false []) /\
+      cexecs env_jump Example.nosubs Example.noxi 30 cs0 p_jump = Some cs' /\ cs_jump cs' = Some 4596%Z /\
+      runs (rw_of_prog p_jump) ilsubs eff (Example.ms_of env_jump) ms' /\
+      lookup "jump_target" (locals ms') = Some (VBv 32 4596%Z).
+  Proof.
+    intros ilsubs.
+    destruct (covered_correct 0 p_jump ltac:(vm_compute; reflexivity)) as [eff [D' [V' [Hl Hsim]]]].
+    assert (Hc : exists cs', cexecs env_jump Example.nosubs Example.noxi 30 cs0 p_jump = Some cs' /\ cs_jump cs' = Some 4596%Z).
+    { eexists. split; [vm_compute; reflexivity | reflexivity]. }
+    destruct Hc as [cs' [Hc Hj]].
+    destruct (Hsim ilsubs env_jump Example.nosubs Example.noxi cs0 (Example.ms_of env_jump) 30%nat cs' csub_ext_none
+                (Example.srel_init _ env_jump) (Example.fresh_init _) Hc) as [ms' [Hrun Hrel']].
+    exists eff, cs', ms'. repeat (split; [assumption|]).
+    destruct Hrel' as [_ [_ [_ [_ [_ [Hjr _]]]]]]. unfold jrel in Hjr. rewrite Hj in Hjr. apply Hjr.
+  Qed.
+
+  (* --- sizeof --- *)
+  (* { RdV = RsV >> (sizeof(RsV) * 8 - 1); }   (the compiler folds sizeof(RsV) to the literal 4, typed int) *)
+  Definition p_sizeof :=
+    one (asg (reg "R" "d") (EBin Ast.BShr (reg "R" "s")
+           (EBin Ast.BSub (EBin Ast.BMul (Ast.ECall "sizeof" (ECons (reg "R" "s") ENil)) (num 8)) (num 1)))).
+  Example covered_sizeof : covered 0 p_sizeof = true.
+  Proof. vm_compute. reflexivity. Qed.
+  Example p_sizeof_lowered :
+    tlower (cfg_insn 0) p_sizeof = OK (EWriteReg (RIsa "R" "d" false) (PBin BShra (PReg (RIsa "R" "s" false) false) (PBv true 32 31)), 0%N).
+  Proof. vm_compute. reflexivity. Qed.
+  (* CSem has no sizeof (it reads it as a call of a routine without body): for this behaviour the simulation theorem holds
+     vacuously -- the C side prescribes nothing *)
+  Example p_sizeof_no_c_value : cexecs Example.env Example.nosubs Example.noxi 50 cs0 p_sizeof = None.
+  Proof. vm_compute. reflexivity. Qed.
+
+  (* --- declarations without initialiser --- *)
+  (* { size4s_t tmp; tmp = RsV + RtV; RdV = tmp; } *)
+  Definition p_decl0 :=
+    SCons (SDecl [TS_sizeN 4 true] "tmp" None)
+   (SCons (asg (var "tmp") (EBin Ast.BAdd (reg "R" "s") (reg "R" "t"))) (SCons (asg (reg "R" "d") (var "tmp")) SNil)).
+  (* { int x; if (PuV) { x = 1; } else { x = 2; } RdV = x; }    (both branches give x its first value) *)
+  Definition p_decl0_if :=
+    SCons (SDecl [TS_int] "x" None)
+   (SCons (SIf (reg "P" "u") (SBlock (one (asg (var "x") (num 1)))) (Some (SBlock (one (asg (var "x") (num 2))))))
+   (SCons (asg (reg "R" "d") (var "x")) SNil)).
+  (* { int x; RdV = x; }   NOT covered: x is read before it has a value (C prescribes no result) *)
+  Definition p_decl0_read := SCons (SDecl [TS_int] "x" None) (SCons (asg (reg "R" "d") (var "x")) SNil).
+  (* { int x; if (PuV) { x = 1; } RdV = x; }   NOT covered: x has a value on one path only *)
+  Definition p_decl0_half :=
+    SCons (SDecl [TS_int] "x" None)
+   (SCons (SIf (reg "P" "u") (SBlock (one (asg (var "x") (num 1)))) None) (SCons (asg (reg "R" "d") (var "x")) SNil)).
+  Example covered_decl0 : map (covered 0) [p_decl0; p_decl0_if; p_decl0_read; p_decl0_half] = [true; true; false; false].
+  Proof. vm_compute. reflexivity. Qed.
+  Example p_decl0_envs :
+    sfrags_check (rw_of_prog p_decl0_if) (IM_of p_decl0_if) [] [] p_decl0_if =
+    Some ([("x", Some (ty_int true 32))], [("x", Some (ty_int true 32))]) /\
+    sfrags_check (rw_of_prog p_decl0_read) (IM_of p_decl0_read) [] [] (SCons (SDecl [TS_int] "x" None) SNil) =
+    Some ([("x", Some (ty_int true 32))], []).
+  Proof. split; vm_compute; reflexivity. Qed.
+
+  (* --- bitwise compound assignment --- *)
+  (* M4_or_and:  { RxV |= (RsV & RtV); }      S2_asl_i_r_xacc-like:  { RxV ^= (RsV << uiV); } *)
+  Definition p_oracc := one (SExpr (EAssign AOr (reg "R" "x") (EBin Ast.BAnd (reg "R" "s") (reg "R" "t")))).
+  Definition p_xacc := one (SExpr (EAssign AXor (reg "R" "x") (EBin Ast.BShl (reg "R" "s") (imm "u")))).
+  (* { uint8_t m = 15; m &= RsV; PdV = m; } *)
+  Definition p_andvar :=
+    SCons (SDecl [TS_intN false 8] "m" (Some (num 15))) (SCons (SExpr (EAssign AAnd (var "m") (reg "R" "s"))) (SCons (asg (reg "P" "d") (var "m")) SNil)).
+  Example covered_bitwise_compound : map (covered 0) [p_oracc; p_xacc; p_andvar] = [true; true; true].
+  Proof. vm_compute. reflexivity. Qed.
+
+  (* --- register aliases --- *)
+  Definition alias (n : string) := EOp (OAlias n false).
+  (* { RdV = HEX_REG_ALIAS_GP + uiV; } *)
+  Definition p_alias_rd := one (asg (reg "R" "d") (EBin Ast.BAdd (alias "GP") (imm "u"))).
+  (* { HEX_REG_ALIAS_LC0 = RsV; HEX_REG_ALIAS_SA0 = RtV; } *)
+  Definition p_alias_wr := SCons (asg (alias "LC0") (reg "R" "s")) (SCons (asg (alias "SA0") (reg "R" "t")) SNil).
+  (* { ReV = HEX_REG_ALIAS_LR; HEX_REG_ALIAS_LR = HEX_REG_ALIAS_LR + 4; RdV = HEX_REG_ALIAS_LR; }
+     (an alias the behaviour writes: EVERY read of it, also the one before the write, is emitted as a read of the new bank) *)
+  Definition p_alias_rw :=
+    SCons (asg (reg "R" "e") (alias "LR")) (SCons (asg (alias "LR") (EBin Ast.BAdd (alias "LR") (num 4))) (SCons (asg (reg "R" "d") (alias "LR")) SNil)).
+  (* { RddV = HEX_REG_ALIAS_UPCYCLE; }   (a 64-bit alias) *)
+  Definition p_alias_64 := one (asg (reg "R" "dd") (alias "UPCYCLE")).
+  Example covered_aliases : map (covered 0) [p_alias_rd; p_alias_wr; p_alias_rw; p_alias_64] = [true; true; true; true].
+  Proof. vm_compute. reflexivity. Qed.
+  Example p_alias_rw_lowered :
+    tlower (cfg_insn 0) p_alias_rw =
+    OK (ESeq (EWriteReg (RIsa "R" "e" false) (PCast 32 (PBool false) (PReg (RAlias "HEX_REG_ALIAS_LR" false) true)))
+       (ESeq (EWriteReg (RAlias "HEX_REG_ALIAS_LR" false)
+                (PBin RzIL.BAdd (PReg (RAlias "HEX_REG_ALIAS_LR" false) true) (PCast 32 (PBool false) (PBv true 32 4))))
+             (EWriteReg (RIsa "R" "d" false) (PCast 32 (PBool false) (PReg (RAlias "HEX_REG_ALIAS_LR" false) true)))), 0%N).
+  Proof. vm_compute. reflexivity. Qed.
+  Definition env_alias : cenv :=
+    mkce (fun r => if regop_eqb r (alias_op "LR" false) then 100%Z else 0%Z) (fun _ => 0%Z) (fun _ => 0%Z) 0%Z (fun _ => 0%Z).
+  Example p_alias_rw_simulated : forall ilsubs,
+    exists eff cs' ms', tlower_info (cfg_insn 0) p_alias_rw = OK (mkti eff 0 0 false []) /\
+      cexecs env_alias Example.nosubs Example.noxi 30 cs0 p_alias_rw = Some cs' /\
+      runs (rw_of_prog p_alias_rw) ilsubs eff (Example.ms_of env_alias) ms' /\
+      rnew ms' = [(RIsa "R" "d" false, 104%Z); (RAlias "HEX_REG_ALIAS_LR" false, 104%Z); (RIsa "R" "e" false, 100%Z)].
+  Proof.
+    intros ilsubs.
+    destruct (covered_correct 0 p_alias_rw ltac:(vm_compute; reflexivity)) as [eff [D' [V' [Hl Hsim]]]].
+    assert (Hc : exists cs', cexecs env_alias Example.nosubs Example.noxi 30 cs0 p_alias_rw = Some cs' /\
+                             cs_regw cs' = [(RIsa "R" "d" false, 104%Z); (RAlias "HEX_REG_ALIAS_LR" false, 104%Z); (RIsa "R" "e" false, 100%Z)]).
+    { eexists. split; [vm_compute; reflexivity | reflexivity]. }
+    destruct Hc as [cs' [Hc Hr]].
+    destruct (Hsim ilsubs env_alias Example.nosubs Example.noxi cs0 (Example.ms_of env_alias) 30%nat cs' csub_ext_none (Example.srel_init _ env_alias) (Example.fresh_init _) Hc)
+      as [ms' [Hrun Hrel']].
+    exists eff, cs', ms'. repeat (split; [assumption|]).
+    destruct Hrel' as [[_ [Hregw _]] _]. congruence.
+  Qed.
+
+  Example covered_implicit_EA : map (covered 0) [p_pload_ea; p_load_pi; p_store_ea] = [true; true; true].
+  Proof. vm_compute. reflexivity. Qed.
+  Example p_pload_ea_lowered :
+    tlower (cfg_insn 0) p_pload_ea =
+    OK (ESeq (ESetL "u" (PImm "u" false 32))
+       (ESeq (ESetL "EA" (PBin RzIL.BAdd (PCast 32 (PBool false) (PReg (RIsa "R" "s" false) false)) (PVarL "u")))
+             (EBranch (PNonZero (PBin BLogAnd (PCast 32 (PMsb (PReg (RIsa "P" "t" false) false)) (PReg (RIsa "P" "t" false) false)) (PBv true 32 1)))
+                      (EWriteReg (RIsa "R" "d" false)
+                         (PCast 32 (PBool false) (PCast 8 (PBool false) (PLoad 8 (PVarL "EA")))))
+                      ENop)), 0%N).
+  Proof. vm_compute. reflexivity. Qed.
+  (* one vm_compute gives the simulation theorem for the predicated load, for the real configuration *)
+  Example p_pload_ea_simulated :
+    exists eff D' V', tlower_info (cfg_insn 0) p_pload_ea = OK (mkti eff 0 0 false []) /\
+      forall ilsubs E csub xi cs ms fuel cs', csub_ext csub -> srel (IM_of p_pload_ea) E [] [] cs ms -> imm_fresh (IM_of p_pload_ea) cs -> cexecs E csub xi fuel cs p_pload_ea = Some cs' ->
+        exists ms', runs (rw_of_prog p_pload_ea) ilsubs eff ms ms' /\ srel (IM_of p_pload_ea) E D' V' cs' ms'.
+  Proof. apply covered_correct. vm_compute. reflexivity. Qed.
+
+  (* the theorem is not vacuous for these constructs: a behaviour with a load, a macro and an (untaken) cancel_slot, EXECUTED.
+        EA = RsV + 4;  RdV = (size2s_t) mem_load_s16(EA);  RxV = extract32(RdV, 4, 8);  if (RsV == 0) { cancel_slot; }
+     with RsV = 1000 and the bytes 0x34 0xF2 at 1004: the halfword 0xF234 is sign-extended, RdV = 0xFFFFF234, RxV = 0x23 *)
+  Definition p_run :=
+    SCons (asg (var "EA") (EBin Ast.BAdd (reg "R" "s") (num 4)))
+   (SCons (asg (reg "R" "d") (load [TS_sizeN 2 true] true 16 (var "EA")))
+   (SCons (asg (reg "R" "x") (mac "extract32" [reg "R" "d"; num 4; num 8]))
+   (SCons (SIf (EBin Ast.BEq (reg "R" "s") (num 0)) (SBlock (one SCancel)) None) SNil))).
+  Definition env_run : cenv :=
+    mkce (fun r => if regop_eqb r (RIsa "R" "s" false) then 1000%Z else 0%Z) (fun _ => 0%Z) (fun _ => 0%Z) 0%Z
+         (fun a => if Z.eqb a 1004 then 52%Z else if Z.eqb a 1005 then 242%Z else 0%Z).
+  Example p_run_simulated : forall ilsubs,
+    exists eff cs' ms', tlower_info (cfg_insn 0) p_run = OK (mkti eff 0 0 false []) /\
+      cexecs env_run Example.nosubs Example.noxi 30 cs0 p_run = Some cs' /\
+      runs (rw_of_prog p_run) ilsubs eff (Example.ms_of env_run) ms' /\
+      rnew ms' = [(RIsa "R" "x" false, 35%Z); (RIsa "R" "d" false, 4294963764%Z)].
+  Proof.
+    intros ilsubs.
+    destruct (covered_correct 0 p_run ltac:(vm_compute; reflexivity)) as [eff [D' [V' [Hl Hsim]]]].
+    assert (Hc : exists cs', cexecs env_run Example.nosubs Example.noxi 30 cs0 p_run = Some cs' /\
+                             cs_regw cs' = [(RIsa "R" "x" false, 35%Z); (RIsa "R" "d" false, 4294963764%Z)]).
+    { eexists. split; [vm_compute; reflexivity | reflexivity]. }
+    destruct Hc as [cs' [Hc Hr]].
+    destruct (Hsim ilsubs env_run Example.nosubs Example.noxi cs0 (Example.ms_of env_run) 30%nat cs' csub_ext_none (Example.srel_init _ env_run) (Example.fresh_init _) Hc)
+      as [ms' [Hrun Hrel']].
+    exists eff, cs', ms'. repeat (split; [assumption|]).
+    destruct Hrel' as [[_ [Hregw _]] _]. congruence.
+  Qed.
+
+  Example covered_loads_macros_cancel :
+    map (covered 0) [p_sxtb; p_ext64; p_ext32; p_dep32; p_dep64; p_bswap; p_loadh; p_loadd; p_pstore; p_pload]
+    = [true; true; true; true; true; true; true; true; true; true].
+  Proof. vm_compute. reflexivity. Qed.
+  Example p_sxtb_lowered :
+    tlower (cfg_insn 0) p_sxtb =
+    OK (EWriteReg (RIsa "R" "d" false)
+          (PCast 32 (PMsb (PApp "SEXTRACT64" [PCast 64 (PBool false) (PReg (RIsa "R" "s" false) false); PBv true 32 0; PBv true 32 8]))
+             (PApp "SEXTRACT64" [PCast 64 (PBool false) (PReg (RIsa "R" "s" false) false); PBv true 32 0; PBv true 32 8])), 0%N).
+  Proof. vm_compute. reflexivity. Qed.
+  (* { RdV = sextract64(RsV, 0, 8); }  (QEMU's fSXTN(8,64,RsV)): IN the fragment, but NOT covered: the 32-bit SIGNED operand is passed to
+     the macro's uint64_t parameter; the real configuration (repair D3 off) zero-extends it (fill bit IL_FALSE), the
+     configuration of the theorem sign-extends it (MSB), as C does.  The two translations differ, so the behaviour is reported
+     as not covered (for start + len <= 32 the extracted field does not depend on the fill, but `covered` compares terms). *)
+  Definition p_sxtb32 := one (asg (reg "R" "d") (mac "sextract64" [reg "R" "s"; num 0; num 8])).
+  Example sxtb32_in_fragment_not_covered :
+    covered 0 p_sxtb32 = false /\
+    (match sfrags_check (rw_of_prog p_sxtb32) (IM_of p_sxtb32) [] [] p_sxtb32 with Some _ => true | None => false end) = true /\
+    tlower (cfg_insn 0) p_sxtb32 =
+      OK (EWriteReg (RIsa "R" "d" false)
+            (PCast 32 (PMsb (PApp "SEXTRACT64" [PCast 64 (PBool false) (PReg (RIsa "R" "s" false) false); PBv true 32 0; PBv true 32 8]))
+               (PApp "SEXTRACT64" [PCast 64 (PBool false) (PReg (RIsa "R" "s" false) false); PBv true 32 0; PBv true 32 8])), 0%N) /\
+    tlower (cfg_thm 0) p_sxtb32 =
+      OK (EWriteReg (RIsa "R" "d" false)
+            (PCast 32 (PMsb (PApp "SEXTRACT64" [PCast 64 (PMsb (PReg (RIsa "R" "s" false) false)) (PReg (RIsa "R" "s" false) false); PBv true 32 0; PBv true 32 8]))
+               (PApp "SEXTRACT64" [PCast 64 (PMsb (PReg (RIsa "R" "s" false) false)) (PReg (RIsa "R" "s" false) false); PBv true 32 0; PBv true 32 8])), 0%N).
+  Proof. repeat split; vm_compute; reflexivity. Qed.
+  Example p_loadh_lowered :
+    tlower (cfg_insn 0) p_loadh =
+    OK (ESeq (ESetL "s" (PImm "s" true 32))
+             (EWriteReg (RIsa "R" "d" false)
+                (PCast 32 (PMsb (PCast 16 (PMsb (PLoad 16 (PBin RzIL.BAdd (PReg (RIsa "R" "s" false) false) (PVarL "s"))))
+                                          (PLoad 16 (PBin RzIL.BAdd (PReg (RIsa "R" "s" false) false) (PVarL "s")))))
+                          (PCast 16 (PMsb (PLoad 16 (PBin RzIL.BAdd (PReg (RIsa "R" "s" false) false) (PVarL "s"))))
+                                    (PLoad 16 (PBin RzIL.BAdd (PReg (RIsa "R" "s" false) false) (PVarL "s")))))), 0%N).
+  Proof. vm_compute. reflexivity. Qed.
+
   (* the width environment computed for the programs: the handle 's' is 32 bit where RsV is used, 64 bit where RssV is *)
   Example rw_single : rw_of_prog p_add (RIsa "R" "s" false) = 32%N /\ rw_of_prog p_mux (RIsa "P" "u" false) = 8%N.
   Proof. split; reflexivity. Qed.
@@ -747,9 +1227,9 @@ Module CheckExamples.
 
   (* one vm_compute gives the simulation theorem for the real configuration *)
   Example p_mac_simulated :
-    exists eff V', tlower_info (cfg_insn 0) p_mac = OK (mkti eff 0 0 false []) /\
-      forall ilsubs E csub xi cs ms fuel cs', srel (IM_of p_mac) E [] cs ms -> cexecs E csub xi fuel cs p_mac = Some cs' ->
-        exists ms', runs (rw_of_prog p_mac) ilsubs eff ms ms' /\ srel (IM_of p_mac) E V' cs' ms'.
+    exists eff D' V', tlower_info (cfg_insn 0) p_mac = OK (mkti eff 0 0 false []) /\
+      forall ilsubs E csub xi cs ms fuel cs', csub_ext csub -> srel (IM_of p_mac) E [] [] cs ms -> imm_fresh (IM_of p_mac) cs -> cexecs E csub xi fuel cs p_mac = Some cs' ->
+        exists ms', runs (rw_of_prog p_mac) ilsubs eff ms ms' /\ srel (IM_of p_mac) E D' V' cs' ms'.
   Proof. apply covered_correct. vm_compute. reflexivity. Qed.
 
   (* --- not covered --- *)
@@ -760,7 +1240,7 @@ Module CheckExamples.
    (SCons (SFor (asg (var "i") (num 0)) (SExpr (EBin Ast.BLt (var "i") (num 2))) (Some (EPost true (var "i")))
                 (SBlock (one (asg (reg "R" "d") (reg "R" "s"))))) SNil).
   Example loop_not_covered :
-    covered 0 p_loop = false /\ sfrags_check (rw_of_prog p_loop) (IM_of p_loop) [] p_loop = None.
+    covered 0 p_loop = false /\ sfrags_check (rw_of_prog p_loop) (IM_of p_loop) [] [] p_loop = None.
   Proof. split; vm_compute; reflexivity. Qed.
 
   (* { RdV = RsV / RtV; }
@@ -769,7 +1249,7 @@ Module CheckExamples.
      real one.) *)
   Definition p_div := one (asg (reg "R" "d") (EBin Ast.BDiv (reg "R" "s") (reg "R" "t"))).
   Example div_not_covered :
-    covered 0 p_div = false /\ sfrags_check (rw_of_prog p_div) (IM_of p_div) [] p_div = None /\
+    covered 0 p_div = false /\ sfrags_check (rw_of_prog p_div) (IM_of p_div) [] [] p_div = None /\
     tinfo_res_eqb (tlower_info (cfg_insn 0) p_div) (tlower_info (cfg_thm 0) p_div) = false.
   Proof. repeat split; vm_compute; reflexivity. Qed.
 
@@ -780,14 +1260,14 @@ Module CheckExamples.
      conjunct. *)
   Definition p_mix := SCons (asg (reg "R" "d") (reg "R" "s")) (SCons (asg (reg "R" "dd") (reg "R" "ss")) SNil).
   Example mix_not_covered :
-    covered 0 p_mix = false /\ sfrags_check (rw_of_prog p_mix) (IM_of p_mix) [] p_mix = None /\
+    covered 0 p_mix = false /\ sfrags_check (rw_of_prog p_mix) (IM_of p_mix) [] [] p_mix = None /\
     rw_of_prog p_mix (RIsa "R" "s" false) = 32%N /\
     tinfo_res_eqb (tlower_info (cfg_insn 0) p_mix) (tlower_info (cfg_thm 0) p_mix) = true.
   Proof. repeat split; vm_compute; reflexivity. Qed.
   (* ... and indeed no rw at all puts it into the fragment *)
-  Example mix_not_in_fragment : forall rw IM V', ~ sfrags rw IM [] p_mix V'.
+  Example mix_not_in_fragment : forall rw IM D' V', ~ sfrags rw IM [] [] p_mix D' V'.
   Proof.
-    intros rw IM V' H. apply sfrags_check_complete in H. unfold p_mix, one, asg, reg in H.
+    intros rw IM D' V' H. apply sfrags_check_complete in H. unfold p_mix, one, asg, reg in H.
     cbn [sfrags_check sfrag_check pfrag_check dest_cls_b existsb String.eqb Ascii.eqb Bool.eqb orb andb] in H.
     unfold regw_b in H. cbn in H.
     destruct (N.eqb_spec (rw (RIsa "R" "s" false)) 32) as [E|_]; [|destruct (rw (RIsa "R" "d" false) =? 32)%N; discriminate H].
@@ -801,6 +1281,6 @@ Module CheckExamples.
   Definition p_pkt := SCons (SDecl [TS_intN true 32] "pkt" (Some (num 1))) (SCons (asg (reg "R" "d") (var "pkt")) SNil).
   Example pkt_not_covered :
     covered 0 p_pkt = false /\
-    (match sfrags_check (rw_of_prog p_pkt) (IM_of p_pkt) [] p_pkt with Some _ => true | None => false end) = true.
+    (match sfrags_check (rw_of_prog p_pkt) (IM_of p_pkt) [] [] p_pkt with Some _ => true | None => false end) = true.
   Proof. split; vm_compute; reflexivity. Qed.
 End CheckExamples.
